@@ -153,6 +153,15 @@ class FullWorld(object):
         end = self.sim.now + extra
         return self.sim.run(until=lambda: self.sim.now >= end)
 
+    def wait_executor_idle(self, limit=60.0):
+        """Run until the cluster's executor has nothing queued and every worker is waiting for work (tasks may block for seconds,
+        e.g. in borrow_connection(timeout=2.0) behind the very tasks that would free a stream id), at most `limit` seconds."""
+        ex = getattr(self.cluster, 'executor', None)
+        if ex is None or not hasattr(ex, '_idle'):
+            return
+        end = self.sim.now + limit
+        self.sim.run(until=lambda: (not ex._q and ex._idle >= len([t for t in ex._workers if t.state != 'done'])) or self.sim.now >= end)
+
     def drain(self, quiet_for=0.0):
         """Run until no environment event is pending and no thread is runnable."""
         sim = self.sim
